@@ -414,7 +414,14 @@ def should_rerun_table(ctx: Ctx, rule: str) -> None:
         if call_name(c) == "get_numeric" and c.args and isinstance(c.args[0], ast.Constant) and c.args[0].value == "max_tries":
             d = ast.unparse(c.args[1]) if len(c.args) > 1 else None
             detail.append(("max_tries", d))
-            if d != "2 if self.params.get('replay') else 1":
+            # without replay exactly one try; under replay at least two (a constant >= 2, or max(<...>, k) with k >= 2)
+            dn = c.args[1] if len(c.args) > 1 else None
+            okd = isinstance(dn, ast.IfExp) and ast.unparse(dn.test) == "self.params.get('replay')" and isinstance(dn.orelse, ast.Constant) and dn.orelse.value == 1
+            if okd:
+                b = dn.body
+                okd = (isinstance(b, ast.Constant) and isinstance(b.value, int) and b.value >= 2) or (
+                    isinstance(b, ast.Call) and ast.unparse(b.func) == "max" and any(isinstance(a, ast.Constant) and isinstance(a.value, int) and a.value >= 2 for a in b.args))
+            if not okd:
                 defaults_ok = False
         if call_name(c) == "get_list" and c.args and isinstance(c.args[0], ast.Constant) and c.args[0].value == "rerun_status":
             d = ast.unparse(c.args[1]) if len(c.args) > 1 else None
@@ -441,7 +448,7 @@ def should_rerun_table(ctx: Ctx, rule: str) -> None:
             detail.append(("rerun_status selection", ast.unparse(ie.test)))
     else:
         defaults_ok = False
-    ctx.record(rule + "d", "CONST", fref, "defaults: max_tries 2 if replay else 1; rerun_status 'fail,error,warn' if replay else all; stop_status none",
+    ctx.record(rule + "d", "CONST", fref, "defaults: max_tries 1, under replay at least 2; rerun_status 'fail,error,warn' if replay else all; stop_status none",
                defaults_ok, {"found": detail}, "" if defaults_ok else f"retry defaults changed: {detail}")
 
 
